@@ -259,9 +259,11 @@ def end_to_end(ctx, cfg, d, field, u0s, t0, hs, sigp="grid"):
     stepper = sm.ModelStepper(ctx, cfg, field, d, lam_of(cfg, d), prior=prior)
     state0 = solver.init(jnp.asarray(t0), prior, damp=cfg.damp)
     ms = sm.state_slices(cfg, state0)
-    aux = (([Fraction(0)] * d if cfg.fact == "bd" else Fraction(0)), Fraction(0)) if cfg.solver.startswith("mle") else None
+    # calibration bookkeeping starts from the implementation's initial state (it contains the initial-constraint term, which
+    # `check_init` compares with the model separately)
+    aux = aux_of(cfg, state0) if cfg.solver.startswith("mle") else None
     t = F(t0)
-    traj, scales = [ms], []
+    traj, scales, amps = [ms], [], []
     pvs = [[np.array([m_["cov"][a, a] for a in range(len(m_["mean"]))], dtype=object) for m_ in ms]]
     case = case_of(cfg, field, u0s, t0, hs)
     try:
@@ -271,12 +273,18 @@ def end_to_end(ctx, cfg, d, field, u0s, t0, hs, sigp="grid"):
             prev = ms
             ms, aux, info = stepper.step(ms, t, h, aux)
             pvs.append(predicted_vars(ctx, stepper, prev, h, info))
+            amps.append(info.get("amp", 1.0))
             t = t + h
             traj.append(ms)
             scales.append(info.get("scale2"))
     except core.ModelError as e:
         ctx.skip("model refused grid run: " + e.ans[:60])
         return
+    if amps and not max(amps) < 1e6:
+        # a calibration residual cancels completely somewhere along the run: scales and calibrated covariances are
+        # rounding noise in the implementation (per-step refinement handles these steps individually)
+        ctx.skip("end-to-end run: a calibration residual cancels to < 1e-6 of its summands")
+        return sol, traj, None, aux
     # calibrated scale^2 per factorisation
     nsteps = len(hs)
     if cfg.solver.startswith("mle"):
@@ -379,6 +387,7 @@ def run(ctx):
         ctx.count(f"q={cfg.q}")
         ctx.count(f"damp={'0' if cfg.damp == 0 else '>0'}")
         refine_steps(ctx, cfg, d, field, u0s, t0, hs)
-        if it % 3 == 0 and cfg.q <= 4:
-            hs2 = [float(2.0 ** ctx.rng.integers(-4, 0)) for _ in range(int(ctx.rng.integers(2, 5)))]
+        if it % 2 == 0 and cfg.q <= 2 and d <= 2 and not (cfg.solver.startswith("dynamic") and cfg.q > 1):
+            nst2 = 2 if cfg.solver.startswith("dynamic") else int(ctx.rng.integers(2, 4))
+            hs2 = [float(2.0 ** ctx.rng.integers(-3, 0)) for _ in range(nst2)]
             end_to_end(ctx, cfg, d, field, u0s, t0, hs2)
